@@ -20,7 +20,8 @@
          REFUTED in general (21)-(24) with witnesses that hold for every
          correct libm.                                                       *)
 From FendV Require Import Base.Prelude Elem.Bridge Elem.Model Elem.ModelProofs
-  Elem.BridgeProofs Elem.RootProofs Elem.TrigReals Elem.PointDefs Elem.Accuracy.
+  Elem.BridgeProofs Elem.RootProofs Elem.RoundProofs Elem.TrigReals Elem.PointDefs Elem.Accuracy
+  Elem.AccuracySmall.
 From Coq Require Import QArith Qabs Qreals Reals.
 Open Scope R_scope.
 
@@ -299,6 +300,42 @@ Theorem C15_accuracy_partial_atan : forall Fo q,
 Proof. exact accuracy_partial_atan. Qed.
 Print Assumptions C15_accuracy_partial_atan.
 
+(* ------------------------------------------------------------- (19b) *)
+(* hypothesis (b) is a THEOREM when the simplified numerator and denominator
+   of the argument fit one 64-bit limb: the soft-float rounding is
+   round-to-nearest with relative error 2^-53 in the normal range
+   (C15_round_pos_rel_error), as_f64 of one limb costs two roundings, the
+   division one more.  For those arguments the accuracy of sin and atan is
+   conditional on the libm hypothesis alone. *)
+Theorem C15_round_pos_rel_error : forall neg n d s, (0 < n)%N -> (0 < d)%N ->
+  (-1022 <= sel_e n d + s <= 1022)%Z ->
+  let v := RN n * p2 s / RN d in
+  exists m, round_pos neg n d s = FFin neg m (sel_e n d + s - 52) /\
+            (2 ^ 52 <= m <= 2 ^ 53)%N /\
+            Rabs (RN m * p2 (sel_e n d + s - 52) - v) <= / 2 ^ 53 * v /\ 0 < v.
+Proof. exact round_pos_rel_error. Qed.
+Print Assumptions C15_round_pos_rel_error.
+
+Theorem C15_into_f64_small_accurate : forall q, small_operands q -> into_ok (/ 2 ^ 50) q.
+Proof. exact into_ok_small. Qed.
+Print Assumptions C15_into_f64_small_accurate.
+
+Theorem C15_accuracy_small_operands_sin : forall Fo q,
+  Rabs (Q2R q) <= 1000 -> small_operands q ->
+  libm_ok (Fo Fsin) sin (/ 2 ^ 52) (into_f64 q) ->
+  exists v, real_fn Fo Fsin (RSimple q) = Ok v /\
+            within_budget (real_val (exv v)) (true_fn Fsin (Q2R q)).
+Proof. exact accuracy_sin_small. Qed.
+Print Assumptions C15_accuracy_small_operands_sin.
+
+Theorem C15_accuracy_small_operands_atan : forall Fo q,
+  Rabs (Q2R q) <= 1000 -> small_operands q ->
+  libm_ok (Fo Fatan) atan (/ 2 ^ 52) (into_f64 q) ->
+  exists v, real_fn Fo Fatan (RSimple q) = Ok v /\
+            within_budget (real_val (exv v)) (true_fn Fatan (Q2R q)).
+Proof. exact accuracy_atan_small. Qed.
+Print Assumptions C15_accuracy_small_operands_atan.
+
 (* --------------------------------------------------------------- (20) *)
 (* error budget of the bridge around the oracle, for ANY function fR with
    Lipschitz constant L: 2^-64 (from_f64) + eps_libm + L * delta * |q| *)
@@ -354,6 +391,12 @@ Proof. split; reflexivity. Qed.
 
 Example C15_root_bisection_inhabited :      (* sqrt 2 from the floor 1 *)
   (Qpower 1 (Z.of_N 2) <= 2)%Q /\ (2 <= Qpower (1 + 1) (Z.of_N 2))%Q.
+Proof. split; discriminate. Qed.
+
+Example C15_small_operands_inhabited : small_operands (-355 # 113)%Q.
+Proof. split; reflexivity. Qed.
+
+Example C15_round_pos_inhabited : (-1022 <= sel_e 1 3 + 0 <= 1022)%Z.     (* 1/3 *)
 Proof. split; discriminate. Qed.
 
 Example C15_from_f64_error_inhabited :
